@@ -129,7 +129,7 @@ def facts_for(repo=None, cfg='default', target_dir=None, quiet=False):
         info['extract_s'] = round(time.time() - t0, 2)
         # keep the cache small
         olds = sorted(glob.glob(os.path.join(FACTS, '*.jsonl')), key=os.path.getmtime)
-        for p in olds[:-int(os.environ.get('SIMLINT_FACTS_KEEP', '25'))]:
+        for p in olds[:-int(os.environ.get('SIMLINT_FACTS_KEEP', '400'))]:
             try:
                 os.remove(p)
             except OSError:
